@@ -91,6 +91,9 @@ type e1Spec struct {
 	MaxSecs  int    `json:"max_secs,omitempty"`
 	// which oracles decide (tags); violations of other oracles are counted but do not stop the run
 	Oracles []string `json:"oracles"`
+	// model conformance: directory holding the TLC state graphs (dot) of models/HandOff.tla; when
+	// set, every execution's event trace is walked through the graph of its batch size
+	ModelDir string `json:"model_dir,omitempty"`
 }
 
 const e1B = 1024
@@ -132,6 +135,11 @@ type e1Result struct {
 	OtherTags   map[string]int `json:"other_tags,omitempty"`
 	Capped      string         `json:"capped,omitempty"`
 	BoundDone   int            `json:"bound_done"`
+	// model conformance (implementation traces walked through the TLC state graph)
+	TracesWalked  int    `json:"traces_walked,omitempty"`
+	BatchesWalked int    `json:"batches_walked,omitempty"`
+	ModelMismatch string `json:"model_mismatch,omitempty"`
+	ModelNodesHit int    `json:"model_nodes_hit,omitempty"`
 	WallS       float64        `json:"wall_s"`
 	HarnessErr  string         `json:"harness_error,omitempty"`
 }
@@ -144,6 +152,7 @@ type e1Monitor struct {
 	lastFirst  int
 	viols      map[string]string
 	events     []string
+	evs        []evRec // structured events (kept with keepEvents): input of the model conformance walk
 	keepEvents bool
 	cancelAt   int         // event index of the last store of -1 by a task (0 = none)
 	lastLoadAt map[int]int // per thread: event index of its last atomic load
@@ -162,6 +171,7 @@ func (mo *e1Monitor) onEvent(e vcoop.Event) {
 	mo.nEv++
 	if mo.keepEvents {
 		mo.events = append(mo.events, fmt.Sprintf("T%d:%s:%s%d", e.Thread, e.Kind, e.Detail, e.Val))
+		mo.evs = append(mo.evs, evRec{e.Thread, e.Kind, e.Val})
 	}
 	t := e.Thread
 	switch e.Kind {
@@ -206,11 +216,18 @@ func (mo *e1Monitor) onEvent(e vcoop.Event) {
 	}
 }
 
+type evRec struct {
+	T    int
+	Kind vcoop.OpKind
+	Val  int64
+}
+
 type e1Exec struct {
 	outcome string
 	viols   map[string]string
 	sched   *vcoop.Sched
 	events  []string
+	evs     []evRec
 }
 
 type callRec struct {
@@ -443,8 +460,12 @@ func e1DriveDec(sp *e1Spec, p *e1Prep, mo *e1Monitor) (out []byte, calls []callR
 // e1RunOnce runs the scenario once under choice prefix `prefix`.
 var e1Visited map[uint64]struct{}
 
+// e1Directed, when non-nil, makes the next e1RunOnce a directed replay (thread ids, see vcoop.Sched.Directed)
+var e1Directed []int
+
 func e1RunOnce(sp *e1Spec, preps []*e1Prep, prefix []int, sleepInit map[int]bool, useSleep, keepEvents bool) *e1Exec {
 	s := vcoop.New(prefix)
+	s.Directed = e1Directed
 	if sp.Mode == "cache" && !keepEvents {
 		s.UseCache = true
 		s.Visited = e1Visited
@@ -490,6 +511,7 @@ func e1RunOnce(sp *e1Spec, preps []*e1Prep, prefix []int, sleepInit map[int]bool
 		drive(pipes[0])
 	})
 	ex.events = mo.events
+	ex.evs = mo.evs
 	if ab != nil {
 		switch {
 		case strings.HasPrefix(ab.Reason, "deadlock"):
@@ -649,8 +671,11 @@ func (x *e1Explorer) explore(prefix []int, bound int, sleepInit map[int]bool) {
 		return
 	}
 	useSleep := x.sp.Mode == "sleep"
-	ex := e1RunOnce(x.sp, x.preps, prefix, sleepInit, useSleep, false)
+	ex := e1RunOnce(x.sp, x.preps, prefix, sleepInit, useSleep, x.sp.ModelDir != "")
 	s := ex.sched
+	if x.sp.ModelDir != "" && !s.Redundant && s.Aborted == nil {
+		x.conform(ex)
+	}
 	x.res.Points += len(s.Points)
 	if len(s.Points) > x.res.MaxPoints {
 		x.res.MaxPoints = len(s.Points)
